@@ -36,8 +36,11 @@ def single_chain(draw, tier, nmax=None):
     e = draw(st.sampled_from(gen.ENSEMBLES))
     name = draw(st.sampled_from([e, e + '|r1', e + '|r10']))
     il = draw(gen.idl_list(5, nmax))
-    return {'name': name, 'idl': il, 'form': draw(gen.idl_form()),
-            'data': draw(gen.recipe(len(il), sigma=gen.fl(0.01, 3.0), mean=st.one_of(gen.fl(-5, 5), st.sampled_from([0.0, 1e6, -1e-6]))))}
+    data = draw(gen.recipe(len(il), sigma=gen.fl(0.01, 3.0), mean=st.one_of(gen.fl(-5, 5), st.sampled_from([0.0, 1e6, -1e-6]))))
+    if draw(st.integers(0, 5)) == 0:
+        # the same chain in other units: the resampling transforms are scale covariant, absolute thresholds are not
+        data = dict(data, scale=10.0 ** draw(st.sampled_from([-30, -25, -22, -19, 15, 25])))
+    return {'name': name, 'idl': il, 'form': draw(gen.idl_form()), 'data': data}
 
 
 @st.composite
@@ -242,6 +245,27 @@ def seed_oracle(spec):
         require(not np.array_equal(table2, table), 'a different chain (%s vs %s) is resampled with the identical default table' % (other, c['name']))
     ea2 = a.export_bootstrap(samples=ns)
     require(np.array_equal(ea, ea2), 'two default-seeded exports of the same observable differ')
+    if spec['samples'] % 30 == 0:
+        # reproducible also between interpreter runs: a fresh process with another string-hash salt saves the same table
+        import subprocess
+        import sys
+        code = ('import sys, numpy as np\n'
+                'import pyerrors as pe\n'
+                'o = pe.Obs([np.arange(%d, dtype=float)], [%r])\n'
+                'o.export_bootstrap(samples=%d, save_rng=sys.argv[1])\n' % (n, c['name'], ns))
+        tmp3 = tempfile.mkdtemp(prefix='verif_c13_')
+        f3 = os.path.join(tmp3, 'rng.txt')
+        try:
+            env = dict(os.environ, PYTHONHASHSEED=str(1 + spec['samples']), PYTHONPATH=os.environ.get('VERIF_REPO', '/repo'))
+            p3 = subprocess.run([sys.executable, '-c', code, f3], env=env, capture_output=True, text=True, timeout=300)
+            if p3.returncode != 0:
+                raise RuntimeError('harness: child interpreter failed: ' + p3.stderr[-300:])
+            table3 = np.atleast_2d(np.loadtxt(f3, dtype=int)).reshape(ns, -1)
+        finally:
+            if os.path.exists(f3):
+                os.unlink(f3)
+            os.rmdir(tmp3)
+        require(np.array_equal(table3, table), 'the name-seeded resampling table of chain %r differs between two interpreter runs' % c['name'])
     eb = b.export_bootstrap(samples=ns)
     wantb = np.array([y[row].mean() for row in table])
     require(np.all(np.abs(eb[1:] - wantb) <= 1e-12 * scale), 'another observable of the same chain is resampled with a different table')
